@@ -110,6 +110,8 @@ Section Facts.
     all: cbn [forallb aarg_wfe] in Ha; rewrite ?andb_true_r in Ha.
     all: try (unfold opt_bind in Hh;
               match type of Hh with match ?u with _ => _ end = Some _ => destruct u eqn:Eu; [|discriminate Hh] end).
+    all: try (injection Hh as <-;
+              match goal with |- wfe (if ?b then _ else _) = true => destruct b; [assumption|rewrite wfe_select, Hw, Hc, Hp; reflexivity] end; fail).
     all: injection Hh as <-; rewrite wfe_select; rewrite ?Hw, ?Hc; cbn [andb].
     all: try (fin; fail).
     all: try (fin; eapply upd_last_forallb; [exact Eu|assumption|intros x Hx; cbn in *; assumption]; fail).
@@ -162,6 +164,8 @@ Section Facts.
     all: cbn [forallb aarg_wfe] in Ha; rewrite ?andb_true_r in Ha.
     all: try (unfold opt_bind in Hh;
               match type of Hh with match ?u with _ => _ end = Some _ => destruct u eqn:Eu; [|discriminate Hh] end).
+    all: try (injection Hh as <-;
+              match goal with |- wfe (if ?b then _ else _) = true => destruct b; [assumption|rewrite wfe_update; exact Hb] end; fail).
     all: injection Hh as <-; rewrite wfe_update.
     all: try (fin2; fail).
     all: try (fin2; eapply upd_last_forallb; [exact Eu|assumption|intros x Hx; cbn in *; assumption]; fail).
